@@ -1,5 +1,6 @@
 import StepupModel.Proto
 import StepupModel.Drv.C13
+import StepupModel.Drv.C15
 import StepupModel.Drv.C16
 import StepupModel.Drv.C17
 import StepupModel.Drv.C18
@@ -14,6 +15,7 @@ def dispatch (sess : Drv.K.Session) (line : String) : Drv.K.Session × String :=
   match line.splitOn " " with
   | "k" :: rest => (Drv.K.handle sess rest).getD (sess, "bad-op")
   | "c13" :: rest => (sess, (Drv.C13.handle rest).getD "bad-op")
+  | "c15" :: rest => (sess, (Drv.C15.handle rest).getD "bad-op")
   | "c16" :: rest => (sess, (Drv.C16.handle rest).getD "bad-op")
   | "c17" :: rest => (sess, (Drv.C17.handle rest).getD "bad-op")
   | "c18" :: rest => (sess, (Drv.C18.handle rest).getD "bad-op")
